@@ -12,6 +12,8 @@ LineOk(r) ==
   CASE r.op = "share" ->
          /\ r.rc = 0
          /\ r.si = Shares(r.s, r.m0, r.mi, r.k)
+         \* the algorithm draws k, (threshold - 1) * len octets, from the caller's generator - no more, no less
+         /\ (("drawn" \in DOMAIN r) => r.drawn = (r.thr - 1) * r.len)
     [] r.op = "recover" ->
          /\ r.rc = 0
          /\ r.out = Recover(r.si, r.m0, r.mi)
